@@ -480,6 +480,10 @@ class IntTr:
     def expr(self, e, cur):
         """cur: name -> (gallina text, current type). returns (text, type)"""
         d = ast.dump(e)
+        if "m6" in self.options:
+            r_ = self.m6_expr(e, cur)
+            if r_ is not None:
+                return r_
         if "m5" in self.options:
             r_ = self.m5_expr(e, cur)
             if r_ is not None:
@@ -1134,6 +1138,20 @@ class IntTr:
                     fail(sl, "slice bound")
                 parts.append(f"(Some {t})")
         return f"(mkslice {parts[0]} {parts[1]} None)"
+
+    def m6_expr(self, e, cur):
+        """expression forms of the sixth batch (option "m6", Np/NpZ4f.v); None = not one of them (the older rules apply).
+        `V != c` / `V == c` for a NAME V whose current type is vec (a 1-d integer ndarray) and an int expression c: numpy compares
+        entry by entry (bool array of the length of V; an empty V gives an empty array).  Fail closed: a single comparison
+        operator, the array on the left, the right operand of type int (a Python sequence / None / another array there is a
+        different numpy rule)."""
+        if isinstance(e, ast.Compare) and len(e.ops) == 1 and isinstance(e.ops[0], (ast.NotEq, ast.Eq)) \
+                and isinstance(e.left, ast.Name) and e.left.id in cur and cur[e.left.id][1] == "vec":
+            r, tr = self.expr(e.comparators[0], cur)
+            if tr != "int":
+                fail(e, "array != / == int")
+            return f"({'np_ne_s' if isinstance(e.ops[0], ast.NotEq) else 'np_eq_s'} {cur[e.left.id][0]} {r})", "bvec"
+        return None
 
     def m5_expr(self, e, cur):
         """expression forms of the fifth batch (option "m5"); None = not one of them (the older rules apply)"""
@@ -2737,7 +2755,7 @@ def main():
                                                         "generated isvector / isrow)", "Np.NpZ Np.NpZ2 Np.NpZ3 Np.NpZ3c Np.NpZ3d Np.NpZ3e Np.NpZ4 Np.NpZ4c "
                                                         "Gen.GenUtils3", extern=("utils3",))),
                      ("GenSptensor4b", lambda: gen_utils(src, envp, "sptensor4b", "pyttb/sptensor.py (sptensor.squeeze: returns a tensor or a "
-                                                         "number)", "Np.NpZ Np.NpZ2 Np.NpZ3 Np.NpZ3c Np.NpZ3d Np.NpZ3e Np.NpZ4 Np.NpZ4b Np.NpZ4d")),
+                                                         "number)", "Np.NpZ Np.NpZ2 Np.NpZ3 Np.NpZ3c Np.NpZ3d Np.NpZ3e Np.NpZ4 Np.NpZ4b Np.NpZ4d Np.NpZ4f")),
                      ("GenSptensor4c", lambda: gen_utils(src, envp, "sptensor4c", "pyttb/sptensor.py (sptensor.logical_not; calls the generated "
                                                          "sptensor.allsubs and tt_setdiff_rows)", "Np.NpZ Np.NpZ2 Np.NpZ3 Np.NpZ3c Np.NpZ3d Np.NpZ3e "
                                                          "Np.NpZ4 Np.NpZ4b Gen.GenUtils Gen.GenKernels Gen.GenMethods2", extern=("utils", "methods2"))),
